@@ -28,7 +28,7 @@ pub fn tokenize(source: &str, file_id: &FileId) -> (Vec<Token>, Vec<Diagnostic>)
         match token {
             Ok(token_type) => {
                 tokens.push(Token {
-                    token_type: token_type.clone(),
+                    token_type,
                     span: SourceSpan {
                         // TODO this will be slow
                         file_id: file_id.clone(),
@@ -40,27 +40,10 @@ pub fn tokenize(source: &str, file_id: &FileId) -> (Vec<Token>, Vec<Diagnostic>)
                     text: lexer.slice().into(),
                 });
 
-                match token_type {
-                    TokenType::Newline => {
-                        line += 1;
-                        col = 0;
-                    }
-                    TokenType::Comment => {
-                        // Comments can have new lines embedded
-                        for c in lexer.slice().chars() {
-                            match c {
-                                '\n' => {
-                                    line += 1;
-                                    col = 0;
-                                }
-                                _ => {
-                                    col += 0;
-                                }
-                            }
-                        }
-                    }
-                    _ => col += lexer.span().len(),
-                }
+                // Advance the position over the text of the token. Comments and
+                // strings can contain line breaks, so look at the text rather
+                // than at the kind of token.
+                (line, col) = advance_position(line, col, lexer.slice());
             }
             Err(_) => {
                 let span = lexer.span();
@@ -78,12 +61,31 @@ pub fn tokenize(source: &str, file_id: &FileId) -> (Vec<Token>, Vec<Diagnostic>)
                             col + 1,
                         ),
                     ),
-                ))
+                ));
+
+                // The text that is not a token still occupies its place in the line.
+                (line, col) = advance_position(line, col, lexer.slice());
             }
         }
     }
 
     (tokens, diagnostics)
+}
+
+/// Returns the line and column (in bytes) after the text when the text
+/// starts at the given line and column.
+fn advance_position(line: usize, col: usize, text: &str) -> (usize, usize) {
+    let mut line = line;
+    let mut col = col;
+    for c in text.chars() {
+        if c == '\n' {
+            line += 1;
+            col = 0;
+        } else {
+            col += c.len_utf8();
+        }
+    }
+    (line, col)
 }
 
 #[cfg(test)]
